@@ -161,6 +161,9 @@ def run(ctx):
     res = front.run_batch("tokens", sources, per_proc=1000 if ctx.quick() else 4000)
     rejected = 0
     for src, r in zip(sources, res):
+        if front.skipped(r):
+            ctx.count("not_judged_after_repeated_hangs")
+            continue
         if r["crash"] is not None:
             ctx.violation("crash:%s" % (r["crash"][1] if len(r["crash"]) > 1 else r["crash"][0],),
                           "lexer crashed: %r" % (r["crash"],), dict(source=src),
